@@ -93,6 +93,9 @@ CHECKS = {
  'C27': (['asan'], 'event-log monitor vs exact pointwise reference: every set expression is probed by contains() at all critical values, the midpoints between them, points beyond the extremes, two irrationals and a non-real point, each compared with the boolean combination of operand memberships; sup/inf/boundary/interior/closure compared with their definitions on the exact region description of the set the library built; violating expressions are confirmed in a fresh process and shrunk; ASan stack-overflow / hang detection on the mutual recursion of the set algebra',
          'Expressions of depth <= 3 over intervals (all open/closed/infinite combinations on a rational grid), finite sets, the six number sets, EmptySet and UniversalSet under n-ary and member union/intersection and complement; membership is piecewise constant between critical values so each case is decided exactly.',
          'An unevaluated Contains is no answer and not judged; set functions are judged only when the library result is a real set the reference models.', 'DESIGN.md 3/C27'),
+ 'C28': (['asan'], 'event-log monitor vs exact truth-table reference: the tree returned by logical_and/or/not/xor/nand/nor/xnor and piecewise() is evaluated by the monitor (own exact rational evaluator of relationals, Contains and connectives) under every assignment of the symbols from the exact probe set and compared with the formula asked for; violating formulas confirmed in a fresh process and shrunk',
+         'Formulas of depth <= 3 over pools of relational atoms (linear in x, y), membership atoms (intervals, finite sets, number sets, unions), their differently-written negations and constants; 100-900 assignments per formula cover every threshold, midpoint and outside point, so each formula is decided exactly on its atoms\' sign patterns.',
+         'Atoms are linear with rational constants; a returned tree with a node the monitor does not model is counted, not judged.', 'DESIGN.md 3/C28'),
 }
 
 def main():
